@@ -33,7 +33,7 @@
    decrypts what every other member sends.
    Statements only. *)
 From Coq Require Import NArith List Bool.
-From MlsV Require Import Res TreeMathGen Tree Kem Priv PrivProofs Decap DecapProofs KemGen KemGenProofs TreeProofs TreeWF5 PrivComplete KemSecrets KemSecretsProofs Filter FilterProofs Pending PendingProofs.
+From MlsV Require Import Res TreeMathGen Tree Kem Priv PrivProofs Decap DecapProofs KemGen KemGenProofs TreeProofs TreeWF5 PrivComplete Agreement KemSecrets KemSecretsProofs Filter FilterProofs Pending PendingProofs.
 Local Open Scope N_scope.
 Import ListNotations.
 
@@ -140,3 +140,29 @@ Theorem C01_translated_resolved_position_is_the_model :
   gen_resolved_pos (blank_at t me) (nokey_at pr) k = Ok (resolved_pos t me pr k).
 Proof. exact gen_resolved_pos_is_model. Qed.
 Print Assumptions C01_translated_resolved_position_is_the_model.
+
+(* end to end over the models: a receiver with a sound private state that finds a ciphertext
+   (it always does when its state is complete, see above) opens the committer's path secret of
+   its level and derives the committer's commit secret *)
+Theorem C01_receiver_derives_the_commit_secret :
+  forall (sec : Type) (derive : sec -> sec) ks t me pr k excl flt r i key s,
+  PrivOK ks me pr ->
+  decap_select t me pr k excl = Ok (Some (i, key)) ->
+  nth k flt true = false ->
+  secret_at sec (fst (committer_chain sec derive flt r)) k = Some s ->
+  exists recips ct,
+    sealed_to t (lvl_node (N.of_nat k) me) excl = Ok recips /\
+    nth_error (seal_to sec ks recips s) i = Some ct /\
+    open_with sec key ct = Some s /\
+    receiver_chain sec derive (skipn k flt) s =
+      (skipn k (fst (committer_chain sec derive flt r)), snd (committer_chain sec derive flt r)).
+Proof. exact receiver_derives_the_commit_secret. Qed.
+Print Assumptions C01_receiver_derives_the_commit_secret.
+
+Theorem C01_receiver_level_is_unfiltered_in_the_committers_list :
+  forall t sndr me k flt,
+  shape_ok t -> small t -> 2 * sndr < tlen t -> get t (2 * me) <> None ->
+  filtered t sndr = Ok flt -> me / 2 ^ N.of_nat k = TreeMathProofs.sib (sndr / 2 ^ N.of_nat k) ->
+  (k < length flt)%nat -> nth k flt true = false.
+Proof. exact receiver_level_unfiltered. Qed.
+Print Assumptions C01_receiver_level_is_unfiltered_in_the_committers_list.
